@@ -102,3 +102,6 @@ func (a *A) Comp(id string) error {
 	}
 	return nil
 }
+
+// Same returns its argument (an expression that can be rendered or stand alone as a Go statement).
+func Same(s string) string { return s }
